@@ -369,7 +369,7 @@ func ruleAPIBoundary(c *Ctx, r *R) {
 				if deadArmReason(ctx) != "" || c.kindSwitchExhaustive(p) != "" || payloadExhausted(p) != "" {
 					ea.deadPanic[p] = true
 				}
-				if why, ok := panicForeignReviewed[ssaFuncName(fn)+"|"+tname+"|"+ctx]; ok && (strings.HasPrefix(why, "dead by") || strings.HasPrefix(why, "defensive") || strings.HasPrefix(why, "stasher protocol") || strings.HasPrefix(why, "operands are script-visible") || strings.HasPrefix(why, "both operands") || strings.HasPrefix(why, "kinds are equal") || strings.HasPrefix(why, "covers every kind") || strings.HasPrefix(why, "covers the three") || strings.HasPrefix(why, "array length is a data property")) {
+				if why, ok := reviewedLookup(panicForeignReviewed, ssaFuncName(fn)+"|"+tname+"|"+ctx); ok && (strings.HasPrefix(why, "dead by") || strings.HasPrefix(why, "defensive") || strings.HasPrefix(why, "stasher protocol") || strings.HasPrefix(why, "operands are script-visible") || strings.HasPrefix(why, "both operands") || strings.HasPrefix(why, "kinds are equal") || strings.HasPrefix(why, "covers every kind") || strings.HasPrefix(why, "covers the three") || strings.HasPrefix(why, "array length is a data property")) {
 					ea.deadPanic[p] = true
 				}
 			}
